@@ -188,7 +188,22 @@ func cmdCheck(args []string) int {
 	}
 	llvmEnv()
 	patterns := packagesFor(prop)
-	v, err := LoadVerifier(repoDir, patterns, filepath.Join(verifDir, "contracts", "trusted"))
+	var extras []extraPkg
+	if cfiles := cFilesFor(prop); len(cfiles) > 0 {
+		// the C runtime: extracted mechanically from the tree's C sources on every run
+		xdir := filepath.Join(scratchDir, "ddprt")
+		cmd := exec.Command("python3", append([]string{filepath.Join(verifDir, "tools", "c2go.py"), "--out", xdir, "--repo", repoDir}, cfiles...)...)
+		out, err := cmd.CombinedOutput()
+		if err != nil {
+			fmt.Fprintln(os.Stderr, "c2go:", string(out))
+			return reportLoadFailure(prop, *tier, fmt.Errorf("extraction of the C runtime failed: %s", firstLines(string(out), 5)), start)
+		}
+		if *verbose {
+			fmt.Fprint(os.Stderr, string(out))
+		}
+		extras = append(extras, extraPkg{Dir: xdir, Contracts: filepath.Join(repoDir, "lib", "runtime", "contracts_verif.h")})
+	}
+	v, err := LoadVerifier(repoDir, patterns, filepath.Join(verifDir, "contracts", "trusted"), extras...)
 	if err != nil {
 		// a tree that does not load cannot be verified: that is a failure of every ledger clause
 		fmt.Fprintln(os.Stderr, "load error:", err)
@@ -861,9 +876,20 @@ func reportLoadFailure(prop, tier string, err error, start time.Time) int {
 	return 1
 }
 
+// cFilesFor lists the C runtime sources extracted for a property.
+func cFilesFor(prop string) []string {
+	switch prop {
+	case "C12", "C05", "C06":
+		return []string{"lib/runtime/source/DDP/utf8/utf8.c", "lib/runtime/source/DDP/operators.c", "lib/runtime/source/DDP/memory.c", "lib/runtime/source/DDP/ddptypes.c"}
+	}
+	return nil
+}
+
 // packagesFor lists the packages to load for a property.
 func packagesFor(prop string) []string {
 	switch prop {
+	case "C12":
+		return nil
 	case "C01", "C02", "C05", "C06", "C07", "C10", "C16", "C18":
 		return []string{"./src/...", "./cmd/kddp/..."}
 	}
